@@ -69,7 +69,8 @@ REGISTRY = {
     "Api": [("src/api.cpp", None),
             ("src/util.cpp", ["to_maxint", "to_string", "to_string#2"])],
     # C13: PcModel/Calc.lean
-    "Calc": [("include/calculator.hpp", None), ("src/util.cpp", ["to_maxint"])],
+    "Calc": [("include/calculator.hpp", None), ("src/util.cpp", ["to_maxint"]),
+             ("src/app/main.cpp", ["to_int64"]), ("src/app/CmdOptions.cpp", ["isOption", "parseOption"])],
     # C15: PcModel/Sieve.lean (bit-count paths)
     "BitCount": [("include/popcnt.hpp", None), ("src/Sieve_count.hpp", None)],
     # C20: PcModel/ApiState.lean
